@@ -952,6 +952,17 @@ class History:
             return False
         o = self.choose(lambda l: l is not r and l.m.ndim == r.m.ndim)
         a = r.x.copy()
+        long_entries = rng.random() < 0.2
+        if long_entries:
+            # a receiver with long entries (hundreds of row ids per key) and an operand whose row ids are drawn from
+            # the receiver's own lists at any position - first, late, last - plus some new ones
+            nn = int(gen.pick(rng, [150, 400, 1500]))
+            dd = rng.integers(0, 3, size=nn)
+            if rng.random() < 0.5:
+                dd[: nn // 2] = 1                      # one unbroken run
+            a = gen.dense_to_index(dd, 0)
+            o = None
+            self.ctx.count("set_update:receiver_with_long_entries")
         if o is not None and rng.random() < 0.6:
             other = o.x.copy() if rng.random() < 0.5 else {k: v.copy() for k, v in dict.items(o.x)}
         else:
@@ -961,6 +972,12 @@ class History:
                 if rng.random() < 0.6:
                     n = max(1, a.shape[0])
                     rows = numpy.unique(rng.integers(0, n, size=int(rng.integers(0, 5)))).astype(U32)
+                    own = dict.__getitem__(a, k)
+                    if len(own) and rng.random() < (0.9 if long_entries else 0.4):
+                        lo = int(rng.integers(0, len(own)))
+                        mine = own[lo:: max(1, int(rng.integers(1, 40)))][: int(rng.integers(1, 4))]
+                        rows = numpy.unique(numpy.concatenate([rows[rows > mine[0]] if rng.random() < 0.7 else rows, mine])).astype(U32)
+                        self.ctx.count("set_update:operand_shares_rows_with_the_receiver")
                     other[k] = rows if rng.random() < 0.85 else None
             if rng.random() < 0.5:
                 other[(max(self.vals) + 5,) + tuple(0 for _ in a.shape[1:])] = numpy.array([0], dtype=U32)
@@ -1001,6 +1018,16 @@ class History:
                                % (which, diff[:3], [sorted(got.get(k, [])) for k in diff[:3]],
                                   [sorted(exp.get(k, [])) for k in diff[:3]]))
             self.unchanged(osnap, other, which + "(other)")
+        elif self.aspect == "C07":
+            # (entry-wise algebra with an arbitrary operand may list a row under two values - the operand said so; what
+            # each entry must still be is a non-empty, strictly increasing uint32 list)
+            for k, v in dict.items(a):
+                if not isinstance(v, numpy.ndarray) or v.dtype != U32 or v.ndim != 1 or len(v) == 0 or \
+                        (len(v) > 1 and not numpy.all(v[1:] > v[:-1])):
+                    self.violation("ill-formed:set_update:" + which,
+                                   "%s left entry %r = %r (not a non-empty strictly increasing uint32 list)" % (which, k, v[:12] if hasattr(v, "__len__") else v))
+                    break
+            self.ctx.count("set_update:entries_checked_for_form")
         self.ctx.count("set_update:checked")
         return True
 
